@@ -1,33 +1,22 @@
-(* C13: property theorems.  Statements only; every proof is `exact` of a lemma in Proofs/. *)
+(* C13 -- TwoLevel: periodic disk checkpoints, binomially optimal recomputation
+   Property theorems only: each proof is one application of a lemma proved in Proofs/, followed by Print Assumptions. *)
 From Coq Require Import ZArith List Bool.
 From CS Require TLInv.
+From CS Require Import Actions NAdvance Multistage Exec Sched RunFacts Projections BasicInv MultistageRun TLBridge.
 Import ListNotations.
 Open Scope Z_scope.
 
-Module M_C13_twolevel_step.
-Import TLInv.
-Theorem C13_twolevel_step :
-  forall adv : Z -> Z -> Z,
-         (forall m k : Z, 2 <= m -> 1 <= k -> 1 <= adv m k <= m - 1) ->
-         (forall m : Z, 2 <= m -> adv m 1 = m - 1) ->
-         forall T : Z -> Z -> Z,
-         (forall k : Z, T 1 k = 1) ->
-         (forall m k : Z, 2 <= m -> 1 <= k -> T m k = adv m k + T (m - adv m k) (k - 1) + T (adv m k) k) ->
-         forall (N P bs : Z) (bst : Actions.storage),
-         1 <= N ->
-         1 <= P ->
-         0 <= bs ->
-         bst = Actions.RAM \/ bst = Actions.DISK ->
-         forall (d0 : Z) (s : st) (x : xst) (f : nat),
-         Inv T N P bs d0 s x -> Good T N P bs bst x (resume adv N P bs bst (S (S (S (S f)))) s).
-Proof. exact (@TLInv.step_ok). Qed.
-Print Assumptions C13_twolevel_step.
-End M_C13_twolevel_step.
+(* unlimited adjoint calculations, each executable: the run theorems hold for every number k of further requests *)
+(* the whole TwoLevel run on the extracted model *)
+Theorem C13_twolevel_run : forall (N P bs : Z) (bst : storage) (tj : traj), 1 <= N -> 1 <= P -> 0 <= bs -> bst = RAM \/ bst = DISK -> forall k : nat,
+  exists o0 m ls, run_case (PTwo P bs bst tj) (ptl N P bs bst) (repeat Next (Z.to_nat (TLBridge.Q N P)) ++ [Fin N] ++ repeat Next (S k)) = Ok (o0, m, ls) /\ mon_ok m /\ no_raise ls.
+Proof. exact twolevel_run. Qed.
+Print Assumptions C13_twolevel_run.
 
-(* per-block forward total *)
-Module M_C13_block_total.
+(* PARTIAL: per-block forward total on the TwoLevel machine of TLInv.v (= T (L, b+1) with T the work of the binomial recursion); not yet restated on the extracted model *)
+Module M_C13_block_total_partial.
 Import TLInv.
-Theorem C13_block_total :
+Theorem C13_block_total_partial :
   forall adv : Z -> Z -> Z,
          (forall m k : Z, 2 <= m -> 1 <= k -> 1 <= adv m k <= m - 1) ->
          (forall m : Z, 2 <= m -> adv m 1 = m - 1) ->
@@ -43,6 +32,6 @@ Theorem C13_block_total :
          Inv T N P bs d0 s x ->
          pcv s = PTBlock n0s -> r_ s = N - n0s -> done x = d0 + T (pend N P n0s - n0s) (S_ bs).
 Proof. exact (@TLInv.block_total). Qed.
-Print Assumptions C13_block_total.
-End M_C13_block_total.
+Print Assumptions C13_block_total_partial.
+End M_C13_block_total_partial.
 
